@@ -103,7 +103,7 @@ func c17Exec(c evCase, x *pbt.Ctx) error {
 	if err != nil {
 		return err
 	}
-	defer h.n.Stop()
+	defer h.n.Close()
 	forged, restartBetween := false, false
 	sawVote := false
 	err = h.run(c, func(k int, desc string) error {
@@ -216,7 +216,7 @@ func c17CanonExec(c c17Canon, x *pbt.Ctx) error {
 	if err != nil {
 		return err
 	}
-	defer h.n.Stop()
+	defer h.n.Close()
 	w := h.w
 	cp1, cp2 := c.Epoch, 2*c.Epoch
 	thr := c.N*2/3 + 1
@@ -395,7 +395,7 @@ func c17SkipExec(c c17Skip, x *pbt.Ctx) error {
 	if err != nil {
 		return err
 	}
-	defer h.n.Stop()
+	defer h.n.Close()
 	w := h.w
 	cp1, cp2 := c.Epoch, 2*c.Epoch
 	thr := c.N*2/3 + 1
